@@ -21,7 +21,7 @@ var commonAssume = []string{
 }
 
 func allChecks() []*CheckDef {
-	return []*CheckDef{checkC02(), checkC03(), checkC12(), checkC13(), checkC14(), checkC09(), checkC11()}
+	return []*CheckDef{checkC02(), checkC03(), checkC12(), checkC13(), checkC14(), checkC09(), checkC11(), checkC20()}
 }
 
 func checkC03() *CheckDef {
@@ -287,5 +287,41 @@ func checkC11() *CheckDef {
 			}
 		},
 		Assume: commonAssume,
+	}
+}
+
+const comparePkg = "go.uber.org/thriftrw/internal/compare"
+
+var pkgCompare = PkgDef{Path: comparePkg, Dir: "internal/compare", Name: "compare", Files: []string{"compare/zz_h20.go"}}
+
+func checkC20() *CheckDef {
+	return &CheckDef{
+		ID:   "C20",
+		Pkgs: []PkgDef{pkgCompare},
+		Harnesses: func(tier string) []*sym.HarnessConfig {
+			if tier == "thorough" {
+				return []*sym.HarnessConfig{
+					{Name: "h20", Pkg: comparePkg, Params: map[string]int{"ns": 2, "nv": 0}, Budget: 3000000, AllMapOrders: true, RealFmt: true},
+					{Name: "h20", Pkg: comparePkg, Params: map[string]int{"ns": 0, "nv": 2}, Budget: 3000000, AllMapOrders: true, RealFmt: true},
+					{Name: "h20", Pkg: comparePkg, Params: map[string]int{"ns": 1, "nv": 1}, Budget: 3000000, AllMapOrders: true, RealFmt: true},
+					{Name: "h20_witness", Pkg: comparePkg, Params: map[string]int{"ns": 1, "nv": 0}, AllMapOrders: false, RealFmt: true, ExpectViolation: true},
+				}
+			}
+			return []*sym.HarnessConfig{
+				{Name: "h20", Pkg: comparePkg, Params: map[string]int{"ns": 1, "nv": 0}, Budget: 3000000, AllMapOrders: true, RealFmt: true},
+				{Name: "h20", Pkg: comparePkg, Params: map[string]int{"ns": 0, "nv": 2}, Budget: 3000000, AllMapOrders: true, RealFmt: true},
+				{Name: "h20", Pkg: comparePkg, Params: map[string]int{"ns": 1, "nv": 1}, Budget: 3000000, AllMapOrders: true, RealFmt: true},
+				{Name: "h20_witness", Pkg: comparePkg, Params: map[string]int{"ns": 1, "nv": 0}, AllMapOrders: false, RealFmt: true, ExpectViolation: true},
+			}
+		},
+		Bounds: func(tier string) map[string]interface{} {
+			return map[string]interface{}{
+				"modules":       "<= 2 structs (2 and 1 fields) and <= 2 services (2 and 1 methods) in the old version; every subset of deletions, re-typings (3 types), requiredness flips, one added field per struct, added struct/service/method in the new version",
+				"field_ids":     "symbolic int16, distinct within a struct",
+				"map_iteration": "all orders",
+				"outside":       "git plumbing, CLI exit status, JSON mode, file attribution beyond one file below the git root",
+			}
+		},
+		Assume: append(append([]string{}, commonAssume...), "fmt.Sprintf formats concrete string/integer arguments for real in this check (engine mini-formatter), so diagnostics can be classified by their text"),
 	}
 }
